@@ -51,9 +51,12 @@ Definition hist_of (log : list lrec) : list (N * N) := map (fun r => (implied_fr
 Section Replay.
   Variables INIT GROWTH : N.
 
-  (* the ghost `last` at the seed: the least value for which the invariant of pacing_bound holds *)
-  Definition seed_last (tb : N) : N := if tb <=? INIT then 0 else tb / GROWTH.
-  Definition seed_ok (tb : N) : bool := tb <=? N.max INIT (GROWTH * seed_last tb).
+  (* the ghost `last` at the seed.  A log that starts with an empty heap (bytes_before = 0: the birth of the
+     heap, which is how the harness command `c16` logs) has seen no collection: last = 0, as in pacing_bound.
+     A log that starts later (harness `run`: the Vm's start-up allocations are not logged) gets the least
+     value for which the invariant of pacing_bound holds. *)
+  Definition seed_last (bb tb : N) : N := if (bb =? 0) || (tb <=? INIT) then 0 else tb / GROWTH.
+  Definition seed_ok (bb tb : N) : bool := tb <=? N.max INIT (GROWTH * seed_last bb tb).
 
   (* one record against the model: 0 = agrees, otherwise the number of the first check that fails *)
   Definition rec_check (prev : pstate) (r : lrec) (m : precord) : N :=
@@ -90,21 +93,21 @@ Section Replay.
   Definition model_run (log : list lrec) : list precord :=
     match log with
     | [] => []
-    | r0 :: _ => run_hist (alloc_paced GROWTH) (hist_of log) (mkP (l_bb r0) (l_tb r0)) (seed_last (l_tb r0))
+    | r0 :: _ => run_hist (alloc_paced GROWTH) (hist_of log) (mkP (l_bb r0) (l_tb r0)) (seed_last (l_bb r0) (l_tb r0))
     end.
 
   Definition model_verdict (log : list lrec) : option (N * N) :=
     match log with
     | [] => None
     | r0 :: _ =>
-        if seed_ok (l_tb r0) then log_matches log (model_run log) (mkP (l_bb r0) (l_tb r0)) 0
+        if seed_ok (l_bb r0) (l_tb r0) then log_matches log (model_run log) (mkP (l_bb r0) (l_tb r0)) 0
         else Some (0, 8)
     end.
 
   Definition spec_verdict (log : list lrec) : option N :=
     match log with
     | [] => None
-    | r0 :: _ => log_bound log (seed_last (l_tb r0)) 0
+    | r0 :: _ => log_bound log (seed_last (l_bb r0) (l_tb r0)) 0
     end.
 End Replay.
 
